@@ -5,11 +5,12 @@ import gen
 def setup(register, COMMON_TB):
     register(
         "C03", coq="C03", coq_extra=["gen", "ngx"], pkg="./internal/mode/static/", test="TestVerifC03", gen=gen.gen_c03,
-        extra=[dict(pkg="./internal/mode/static/", test="TestVerifTmpl")],
+        extra=[dict(pkg="./internal/mode/static/", test="TestVerifTmpl"),
+               dict(pkg="./internal/mode/static/state/graph/", test="TestVerifC03Overlap")],
         rule="generated admissible cluster states (as C02) with names rewritten into admissible extremes (dots, double hyphens, 50/200-character "
              "suffixes), OSS and Plus; the real handler/graph/configuration/generator output plus the static nginx.conf and include files is "
              "checked by ngx/Wf.v inside Coq; non-trivial = generated http.conf over 2.5 kB; distinct = distinct (state, plus)"
-             " Second part (templates, evaluated by ngx/TmplCheck.v): every execution of every text/template of the generator inside the real pipeline is recorded (wrapper installed around the package variables); the model of the template engine (ngx/Tmpl.v) is run on the parse tree regenerated from the source (gen/Templates.v) and on the data obtained by reflection, and must reproduce the text byte for byte; user-controlled string leaves are holes (marked: the marker-carrying benign value of every leaf; spaced: one leaf followed by a space and a word; states: generated states, every plain string leaf of unnamed type that no template constant equals); the symbolic tokenizer run over the chunks must not hit a lexical error, a hole that needs quoting outside quotes, a hole in directive-name position, or an unfinished token",
+             " Second part (templates, evaluated by ngx/TmplCheck.v): every execution of every text/template of the generator inside the real pipeline is recorded (wrapper installed around the package variables); the model of the template engine (ngx/Tmpl.v) is run on the parse tree regenerated from the source (gen/Templates.v) and on the data obtained by reflection, and must reproduce the text byte for byte; user-controlled string leaves are holes (marked: the marker-carrying benign value of every leaf; spaced: one leaf followed by a space and a word; states: generated states, every plain string leaf of unnamed type that no template constant equals); the symbolic tokenizer run over the chunks must not hit a lexical error, a hole that needs quoting outside quotes, a hole in directive-name position, or an unfinished token. Third part (TestVerifC03Overlap, evaluated by C03/OverlapCheck.v): the real BuildGraph on a Gateway with 2-4 listeners on up to three ports with exact/wildcard/no hostnames, 2-4 HTTPRoutes (parentRefs with and without sectionName, 0-2 hostnames, 1-2 paths) and 1-3 ObservabilityPolicies with 1-2 targets; observed: accepted hostnames per listener as the graph holds them, TargetConflict per policy; must agree with the model of the overlap check, and no accepted policy may share a location (hostname, listener port, path) with a Route it does not target",
         trusted_base=COMMON_TB + [
             "ngx/Tmpl.v: model of text/template execution for the subset the repository uses (truth, field access through pointers and string-keyed maps, "
             "printing of strings/integers/booleans, and/or/not/eq, variables with scopes, range/else, if/else); anything else is an error and shows as a mismatch",
